@@ -10,7 +10,7 @@ from container_common import enc_operand, enc_label, dec_label
 ID = 'C10'
 LEAN_MODULE = 'Proofs.C10'
 THEOREMS = ['Fsic.C10.' + n for n in [
-    'pySlice_spec', 'clamp_spec', 'locate_seq_pos', 'locate_seq_missing', 'locate_seq_nodup', 'locate_numpy',
+    'pySlice_spec', 'clamp_spec', 'access_depends_only_on_span', 'access_unchanged_by_history', 'locate_seq_pos', 'locate_seq_missing', 'locate_seq_nodup', 'locate_numpy',
     'locate_lt', 'label_get', 'label_set', 'label_set_frame', 'missing_label_keyerror', 'missing_label_keyerror_seq',
     'label_slice_positions', 'label_slice_open_ends', 'label_slice_get', 'label_slice_set',
     'access_paths_agree_reads', 'access_paths_agree_attribute_partial',
@@ -24,7 +24,9 @@ RULE = ('every span of each type up to the length bound (ranges with non-zero or
         'correspondence only) x every label of the span, labels equal under == but of another type, absent labels, '
         'pandas partial-string labels x every (start, stop) over labels + absent + None x step in {None,1,2,3} x '
         '{get, set scalar, set list}; after every write the series is read back through attribute, name key, '
-        'position, label and label slice; writes through attribute / key / position are read back by label. '
+        'position, label and label slice; writes through attribute / key / position are read back by label; the same '
+        'accesses are repeated on a copy, after the values changed, and on a reindexed copy (shifted / extended / '
+        'permuted span of the same type), positions always judged against the span of the object accessed. '
         'Whole space enumerated (seed-independent) on VectorContainer; BaseModel (hand-written / parser-built) and '
         'BaseLinker instances take every second span in a fixed rotation (every span in the thorough tier). distinct = distinct (flavour, span, access); non-trivial = the access addresses at least one '
         'period or must raise KeyError')
@@ -40,7 +42,7 @@ ASSUMPTIONS = ['labels identify periods: the oracle speaks about spans whose lab
                'step > 0; spans of length >= 1 for open-ended slices']
 
 META = {
-    "text": "Theorems over the container model M6, for every well-formed store, span, label and slice: Python slice semantics for all bounds and positive steps (pySlice_spec, clamp_spec); a label is located at its first occurrence / at its unique occurrence for NumPy spans and a label not in the span is missing (locate_*); obj[name, label] reads and writes exactly the element at the label's position, nothing else changes (label_get, label_set, label_set_frame); obj[name, a:b:s] addresses pos(a), pos(a)+s, ... up to and including pos(b), nothing if pos(a) > pos(b), open ends = span ends for distinct labels (label_slice_*); a missing label raises KeyError on reads and writes, single or slice end, and leaves the store unchanged (missing_label_keyerror); a value written through label, position, name key / attribute or label slice is read back through each of the others (access_paths_agree_*). The attribute path is proved when no attribute-list entry carries the variable's name: as shipped, add_variable accepts the name of an existing ad-hoc attribute and obj.name then returns the stale attribute (negation proved at a witness for the shipped configuration, reproduced on the real code, open known finding); for a configuration in which add_variable also checks the attribute list (a reflected switch, probed on every run) that situation is unreachable (no_shadow_step / no_shadow_history) and the attribute path agrees at full strength (access_paths_agree_attribute). pandas get_loc is an input of the model (partial). The model is tied to the code by exhaustive enumeration of spans x labels x slice triples x get/set on all span types, compared after every operation.",
+    "text": "Theorems over the container model M6, for every well-formed store, span, label and slice: Python slice semantics for all bounds and positive steps (pySlice_spec, clamp_spec); a label is located at its first occurrence / at its unique occurrence for NumPy spans and a label not in the span is missing (locate_*); obj[name, label] reads and writes exactly the element at the label's position, nothing else changes (label_get, label_set, label_set_frame); obj[name, a:b:s] addresses pos(a), pos(a)+s, ... up to and including pos(b), nothing if pos(a) > pos(b), open ends = span ends for distinct labels (label_slice_*); a missing label raises KeyError on reads and writes, single or slice end, and leaves the store unchanged (missing_label_keyerror); a value written through label, position, name key / attribute or label slice is read back through each of the others (access_paths_agree_*); what an access addresses depends on the span alone and is unchanged by every history of operations (access_depends_only_on_span, access_unchanged_by_history). The attribute path is proved when no attribute-list entry carries the variable's name: as shipped, add_variable accepts the name of an existing ad-hoc attribute and obj.name then returns the stale attribute (negation proved at a witness for the shipped configuration, reproduced on the real code, open known finding); for a configuration in which add_variable also checks the attribute list (a reflected switch, probed on every run) that situation is unreachable (no_shadow_step / no_shadow_history) and the attribute path agrees at full strength (access_paths_agree_attribute). pandas get_loc is an input of the model (partial). The model is tied to the code by exhaustive enumeration of spans x labels x slice triples x get/set on all span types, compared after every operation.",
     "design_ref": "DESIGN.md §5 M6, §6 C10",
     "note": "Partial: pandas' get_loc is not modelled — its recorded answers are inputs. Trusted: Lean kernel; axioms propext/Classical.choice/Quot.sound; the correspondence harness; Python ==/hash for label identity; NumPy basic slicing. The oracle assumes pairwise distinct labels. Attribute-path agreement is claimed only outside the known finding (variable created with the name of an existing attribute).",
     "technique": "Lean 4 proof (slice arithmetic, first-occurrence search, get-after-set lemmas) + exhaustive differential correspondence check"
@@ -156,6 +158,61 @@ def span_cases(flavour, tag, spec, n, equal, absent, partial, steps):
         yield {**base, 'ops': ops, 'part': 'slice'}
 
 
+def reindex_targets(tag, spec, n):
+    """Spans of the same type to reindex to: shifted, extended, and (where the type allows) permuted."""
+    t = spec['type']
+    if t == 'range':
+        a, b = spec['args'][0], spec['args'][1]
+        st = spec['args'][2] if len(spec['args']) > 2 else 1
+        out = [{'type': 'range', 'args': [a + st, b + st, st]}, {'type': 'range', 'args': [a - st, b + st, st]}]
+        out.append({'type': 'list', 'labels': [L(x) for x in reversed(range(a, b, st))]})
+        return out
+    if t in ('list', 'tuple', 'numpy', 'pindex'):
+        labs = spec['labels']
+        fresh = L('new') if labs and labs[0][0] == 's' else L(777)
+        return [{'type': t, 'labels': list(reversed(labs))},                 # permuted
+                {'type': t, 'labels': labs[1:] + [fresh]},                    # shifted
+                {'type': t, 'labels': [fresh] + labs}]                        # extended at the front
+    if t == 'period':
+        p = pd.Period(spec['start'], freq=spec['freq'])
+        return [{**spec, 'start': str(p + 1)}, {**spec, 'start': str(p - 1), 'n': n + 2}]
+    if t == 'datetime':
+        ts = pd.Timestamp(spec['start'])
+        return [{**spec, 'start': str((ts + pd.Timedelta(days=1)).date())},
+                {**spec, 'start': str((ts - pd.Timedelta(days=1)).date()), 'n': n + 2}]
+    return []
+
+
+def sequence_cases(flavour, tag, spec, n, equal, absent, partial, steps):
+    """The SAME accesses made on an object, on its copy, after its values changed, and on a reindexed copy: what an
+    access addresses may depend on the span of the object it is made on and on nothing else (no memory of earlier
+    accesses, of the object it was copied from, of the span it had before)."""
+    for target in reindex_targets(tag, spec, n):
+        span, span2 = cc.make_span(spec), cc.make_span(target)
+        own = [L(x) for x in span]
+        labs = own + [L(x) for x in span2 if json.dumps(L(x)) not in {json.dumps(o) for o in own}]
+        labs += [L(x) for x in absent[:1]] + [L(x) for x in partial[:2]]
+        ends = [None] + labs
+
+        def accesses(newv):
+            ops = [{'op': 'getLabel', 'name': 'X', 'label': lab} for lab in labs]
+            for a in ends:
+                for b in ends:
+                    for st in steps:
+                        ops.append({'op': 'getLabelSlice', 'name': 'X', 'a': a, 'b': b, 'step': st})
+                    ops.append({'op': 'setLabelSlice', 'name': 'X', 'a': a, 'b': b, 'step': steps[-1], 'v': enc_operand(newv)})
+                    ops.append({'op': 'getItem', 'name': 'X'})
+            for lab in labs:
+                ops.append({'op': 'setLabel', 'name': 'X', 'label': lab, 'v': enc_operand(newv + 0.25)})
+            ops.append({'op': 'getItem', 'name': 'X'})
+            return ops
+        ops = setup_ops(n) + accesses(71.0) + [{'op': 'copy'}] + accesses(72.0)
+        ops += [{'op': 'setItem', 'name': 'X', 'v': enc_operand(list(reversed(X0[:n])))}] + accesses(73.0)
+        ops += [{'op': 'reindex', 'span': target}] + accesses(74.0)
+        ops += [{'op': 'setAttr', 'name': 'X', 'v': enc_operand(5.5)}] + accesses(75.0)
+        yield {'flavour': flavour, 'strict': False, 'span': spec, 'tag': tag, 'part': 'sequence', 'ops': ops}
+
+
 # ---- oracle ---------------------------------------------------------------------------------------------------------
 
 class Oracle:
@@ -207,14 +264,16 @@ class Oracle:
     def observe(self, obj, item, before, out, exc, decl):
         if self.broken:
             return
-        if item is None:
+        if item is not None:
+            self.k += 1
+        if item is None or item['op'] in cc.BOUNDARY:
+            # (re)start: positions are always computed from the span of the object now under test
             self.span_list = list(obj.span)
             n = len(self.span_list)
             self.distinct = all(len(positions_of(self.span_list, x)) == 1 for x in self.span_list)
             self.pser = (pd.Series(np.arange(n), index=obj.span)
                          if isinstance(obj.span, pd.Index) and self.distinct else None)
             return
-        self.k += 1
         if not self.distinct:
             return
         op = item['op']
@@ -350,30 +409,34 @@ def check_cases(ctx, rep, cases, partials):
     for case, partial in zip(cases, partials):
         orc = Oracle(rep, case, partial)
         try:
-            line, impl_out, obj = cc.run_case(case, observer=orc)
-        except Exception as e:  # noqa: BLE001  (e.g. the constructor itself fails on the tree under test)
+            segments, obj = cc.run_segments(case, observer=orc)
+        except Exception as e:  # noqa: BLE001  (e.g. the constructor / copy / reindex fails on the tree under test)
             rep.violate(f'case-could-not-run:{type(e).__name__}', f'running the accesses raised outside any operation: {e!r}',
                         {'case': case, 'at': -1})
             continue
-        for it, o in zip(case['ops'], impl_out):
+        impl_out = [o for seg in segments for o in seg['impl']]
+        for it, o in zip([x for x in case['ops'] if x['op'] not in cc.BOUNDARY], impl_out):
             head = o.split('|')[0].split(':')[0]
             rep.dist[f'{it["op"]}:{head}'] += 1
             if it['op'] in ('getLabel', 'setLabel', 'getLabelSlice', 'setLabelSlice'):
                 acc = json.dumps([case['flavour'], case['span'], {k: v for k, v in it.items() if k != 'v'}], sort_keys=True)
                 rep.case(acc, nontrivial=True, sample=None)
         rep.dist[f'span:{case["tag"]}:{case["flavour"]}'] += 1
-        if len(rep.samples) < 6 and case['part'] != 'shadow':
+        if len(rep.samples) < 6 and case['part'] not in ('shadow', 'single'):
             rep.samples.append({'flavour': case['flavour'], 'span': case['span'], 'part': case['part'],
                                 'items': len(case['ops']), 'example': [json.dumps(case['ops'][-6])[:120], impl_out[-6][:80]]})
-        if line is None:
-            rep.dist['outside-model (pandas returned a mask)'] += 1
-            continue
-        lines.append(line)
-        impls.append(impl_out)
-        kept.append(case)
+        for seg in segments:
+            if seg['line'] is None:
+                rep.dist['outside-model (pandas returned a mask)'] += 1
+                continue
+            if not seg['impl']:
+                continue
+            lines.append(seg['line'])
+            impls.append(seg)
+            kept.append(case)
     if not ctx.oracle_only and lines:
-        for case, line, impl_out, reply in zip(kept, lines, impls, ctx.drive(lines)):
-            cc.compare(rep, 'label access: model != impl', case, line, impl_out, reply)
+        for case, line, seg, reply in zip(kept, lines, impls, ctx.drive(lines)):
+            cc.compare(rep, 'label access: model != impl', case, line, seg['impl'], reply, first=seg['first'])
 
 
 def pyslice_cases(ctx, rep, nmax):
@@ -396,7 +459,7 @@ def pyslice_cases(ctx, rep, nmax):
                 rep.disagree('pySlice: model != Python slicing', r, got, w)
 
 
-def all_cases(ctx, nmax, steps):
+def all_cases(ctx, nmax, steps, seq_lengths=(4,)):
     cases, partials = [], []
     k = 0
     for n in range(1, nmax + 1):
@@ -409,6 +472,13 @@ def all_cases(ctx, nmax, steps):
                 for c in span_cases(fl, tag, spec, n, equal, absent, partial, steps):
                     cases.append(c)
                     partials.append([L(x) for x in partial])
+            if n in seq_lengths and not tag.endswith('-dup'):
+                for fl in flavours:
+                    if fl == 'linker':
+                        continue          # BaseLinker.reindex is not implemented
+                    for c in sequence_cases(fl, tag, spec, n, equal, absent, partial, [None, 2]):
+                        cases.append(c)
+                        partials.append([L(x) for x in partial])
     for c in shadow_cases():
         cases.append(c)
         partials.append([])
@@ -419,7 +489,7 @@ def run(ctx, rep):
     quick = ctx.tier == 'quick'
     nmax = 4 if quick else 7
     steps = [None, 1, 2, 3]
-    cases, partials = all_cases(ctx, nmax, steps)
+    cases, partials = all_cases(ctx, nmax, steps, (4,) if quick else (2, 3, 4, 5))
     for k in range(0, len(cases), 200):
         check_cases(ctx, rep, cases[k:k + 200], partials[k:k + 200])
     pyslice_cases(ctx, rep, 5 if quick else 7)
@@ -435,17 +505,21 @@ def replay(ctx, rep, case):
         if spec == c['span']:
             partial = [L(x) for x in part]
     orc = Oracle(rep, c, partial)
-    line, impl_out, obj = cc.run_case(c, observer=orc)
-    for it, o in list(zip(c['ops'], impl_out))[-4:]:
+    segments, obj = cc.run_segments(c, observer=orc)
+    items = [x for x in c['ops'] if x['op'] not in cc.BOUNDARY]
+    impl_out = [o for seg in segments for o in seg['impl']]
+    for it, o in list(zip(items, impl_out))[-4:]:
         print('  ', json.dumps(it)[:150], '->', o[:200])
-    if line is not None:
+    for seg in segments:
+        if seg['line'] is None or not seg['impl']:
+            continue
         try:
-            reply = ctx.drive([line])[0].split('\t')
-            for k, (a, b) in enumerate(zip(reply, impl_out)):
+            reply = ctx.drive([seg['line']])[0].split('\t')
+            for k, (a, b) in enumerate(zip(reply, seg['impl'])):
                 if a != b:
-                    print(f'  model differs at item {k}:\n    model: {a[:300]}\n    impl : {b[:300]}')
+                    print(f'  model differs at item {seg["first"] + k}:\n    model: {a[:300]}\n    impl : {b[:300]}')
                     break
             else:
-                print('  model agrees with the implementation on every item')
+                print(f'  segment from item {seg["first"]}: model agrees with the implementation on every item')
         except Exception as e:  # noqa: BLE001
             print('  model: <driver unavailable>', e)
